@@ -61,6 +61,7 @@ def check(run, repo, world):
     _readslice_contract(run, world, mod, c)
     _slice_modes(run, world, mod, c)
     _bit_modes(run, world, mod, c)
+    _value_read_after_store(run, world, mod, c)
     _init(run, world, mod, c)
     _add_contains_views(run, world, mod, c)
     _other_operators(run, repo, world, mod, c)
@@ -762,6 +763,62 @@ def _slice_modes(run, world, mod, c):
                        sample={"rule": "R-FRAME-LANES", "operation":
                                "f[hi:lo] = value", "result_lanes": repr(got)}
                        if order == "start>=stop" else None)
+
+
+def _value_read_after_store(run, world, mod, c):
+    """Frame.__setitem__: once the frame's value has been stored to, the
+    written operand is not looked at again.  Every look at it can raise (its
+    truth value, a comparison, an arithmetic operation on a foreign type):
+    a raise after a first store leaves the frame changed although the write
+    was rejected."""
+    from ..cfg import CFG, explicit_raise_only
+    fn = normalise(c.methods["__setitem__"][1], world, FR, c,
+                   aliases="params", primitives=("__init__",))
+    ps_ = [a.arg for a in fn.args.args]
+    if len(ps_) != 3:
+        raise AnalysisError("Frame.__setitem__: expected (self, key, value)")
+    val = ps_[2]
+    cfg = CFG(fn, may_raise=explicit_raise_only, name="Frame.__setitem__")
+
+    def stores(n):
+        a = n.ast
+        if n.kind != "stmt" or a is None:
+            return False
+        tg = a.targets if isinstance(a, ast.Assign) else [
+            a.target] if isinstance(a, (ast.AugAssign, ast.AnnAssign)) else []
+        return any(unparse(t) == "self._data" for t in tg)
+
+    def reads(n):
+        a = n.ast
+        if a is None or n.kind not in ("stmt", "test", "for"):
+            return False
+        root = a.iter if n.kind == "for" else a
+        if isinstance(root, (ast.If, ast.While, ast.For, ast.Try, ast.With)):
+            return False
+        return any(isinstance(x, ast.Name) and x.id == val and isinstance(
+            x.ctx, ast.Load) for x in ast.walk(root))
+    bad = None
+    for s_ in cfg.reachable:
+        if not stores(s_):
+            continue
+        seen, stack = set(), [m for (l, m) in s_.succ]
+        while stack and bad is None:
+            x = stack.pop()
+            if x.id in seen:
+                continue
+            seen.add(x.id)
+            if reads(x):
+                bad = (s_, x)
+                break
+            stack += [m for (l, m) in x.succ]
+    run.ob("R-FRAME-VBM", FR + ".Frame.__setitem__#operand-not-read-after-"
+           "a-store", bad is None,
+           "the frame's value is stored to (line %s) and the written operand "
+           "`%s` is looked at afterwards (line %s): if that raises - a value "
+           "whose truth test or comparison fails - the write is rejected "
+           "with the frame already changed" % (
+               bad[0].lineno if bad else "", val,
+               bad[1].lineno if bad else ""), where(mod, fn))
 
 
 def _bit_modes(run, world, mod, c):
